@@ -147,7 +147,7 @@ def check_apply_rule(db, fn, never_false=frozenset()):
             continue
         if tn == I + 'if_apply':
             if len(calls) != 1: probs.append('the rule is matched %d times' % len(calls)); continue
-            matched = calls[0][-1] == 'T'
+            matched = calls[0][-1] in ('T+', 'T0')
             if not matched:
                 if acts: probs.append('actions are called although the rule did not match')
                 continue
